@@ -487,7 +487,17 @@ pub fn gen_trapmode(a: &Args, out: &mut Out) {
             let ks: Vec<u8> = (0..r2.random_range(1..4).max(if k % 3 == 0 { 0 } else { gkeys })).map(|_| r2.random()).collect();
             m.keys(out, &ks);
             m.add_intfn(out);
-            m.run_call(out, "run", 0, &[], 2500);
+            if k % 3 == 1 {
+                // a front end that runs the machine in budgeted pieces (1, 2, 3 or 5 instructions per call) until it
+                // reports the halt: some piece ends exactly on the instruction that stops the clock
+                let n = [1u64, 2, 3, 5][(k / 3 % 4) as usize];
+                for _ in 0..1500 {
+                    let r = m.run_call(out, "limit", n, &[], 1_000_000);
+                    if r != "ok" || m.sim.hit_halt() { break; }
+                }
+            } else {
+                m.run_call(out, "run", 0, &[], 2500);
+            }
             m.end(out);
         }
     }
@@ -717,6 +727,60 @@ pub fn replay_devices(a: &Args, out: &mut Out) {
 }
 
 
+/// C28 across a run-style call (the observer is cleared when the call begins, not per instruction): programs that
+/// touch one address several times within one call - a store of the value the cell already holds followed by a store
+/// of another one (and the other orders), loads around stores, pushes and pops over one stack slot, stores through a
+/// pointer - performed as one `run`, as `run_with_limit` pieces and step by step.
+pub fn gen_obsrun(_a: &Args, out: &mut Out) {
+    let bodies: [&str; 7] = [
+        "AND R0,R0,#0\nADD R0,R0,#5\nST R0,X\nADD R0,R0,#1\nST R0,X\nHALT\n",
+        "AND R0,R0,#0\nADD R0,R0,#6\nST R0,X\nADD R0,R0,#-1\nST R0,X\nHALT\n",
+        "AND R0,R0,#0\nADD R0,R0,#5\nST R0,X\nST R0,X\nHALT\n",
+        "LD R1,X\nADD R1,R1,#1\nST R1,X\nLD R2,X\nST R1,X\nHALT\n",
+        "LD R6,SP0\nAND R0,R0,#0\nADD R0,R0,#5\nADD R6,R6,#-1\nSTR R0,R6,#0\nLDR R1,R6,#0\nADD R6,R6,#1\nADD R0,R0,#2\nADD R6,R6,#-1\nSTR R0,R6,#0\nADD R6,R6,#1\nHALT\n",
+        "AND R0,R0,#0\nADD R0,R0,#5\nSTI R0,P\nADD R0,R0,#3\nSTI R0,P\nLDI R3,P\nHALT\n",
+        "AND R0,R0,#0\nADD R0,R0,#5\nLEA R1,X\nSTR R0,R1,#0\nNOT R0,R0\nSTR R0,R1,#0\nNOT R0,R0\nSTR R0,R1,#0\nHALT\n",
+    ];
+    let mut run = 0u64;
+    for (bi, body) in bodies.iter().enumerate() {
+        let src = format!(".orig x3000\n{body}X .fill 5\nP .fill X\nSP0 .fill x4000\n.end\n");
+        let prog = assemble_src(&src);
+        for style in 0..4 {
+            run += 1;
+            let mut m = M::new(run, known(0, style % 2 == 1, bi % 2 == 0), out);
+            m.set_mems(out, &[(0x3FFF, word(5, 0xFFFF))]);
+            m.load(out, &prog);
+            m.add_intfn(out);
+            match style {
+                0 | 1 => { m.run_call(out, "run", 0, &[], 400); }
+                2 => { for _ in 0..4 { if m.run_call(out, "limit", 4, &[], 400) == "panic" || m.sim.hit_halt() { break; } } }
+                _ => { for _ in 0..14 { if m.step(out, false, false) != "ok" { break; } } }
+            }
+            m.end(out);
+        }
+    }
+}
+
+/// C16: a timer whose range is made open-ended after construction (`n..`, `..`, `n..=u32::MAX`) fires and redraws its
+/// countdown inside a step; the run ends with the step that redraws (countdowns beyond TIME_CAP are logged capped).
+pub fn gen_timeropen(_a: &Args, out: &mut Out) {
+    let mut run = 0u64;
+    for variant in 0..3u8 {
+        for real in [false, true] {
+            run += 1;
+            let mut m = M::new(run, known(0, real, false), out);
+            let slot = m.add_timer(out, 7 + run, 2, 2, 0x81, 4, true);
+            m.timer_open_range(out, slot, variant, 2, 0x81, 4);
+            for _ in 0..8 {
+                let r = m.step(out, false, false);
+                if r == "panic" { break; }
+                if m.timers[slot - 1].read().unwrap().get_remaining() > 1000 { break; }
+            }
+            m.end(out);
+        }
+    }
+}
+
 /// `lc3v replay machine hist=<file>`: each line is one one-step behaviour of MC_Machine:
 /// [pc, psr, rv, rm, r6, strict, real, base, w] - the adversarial machine (every memory word holds a boundary
 /// address, initialized if base = 1; all registers (rv, rm) but R6; keyboard "AB"; MCR on) is built on a real
@@ -787,7 +851,7 @@ pub fn replay_reset(a: &Args, out: &mut Out) {
     set_pair_tag("none");
     crate::machine::LIGHT_HEADERS.with(|l| l.set(true));
     let prog = assemble_src(".orig x3000\nAND R0, R0, #0\nADD R0, R0, #5\nST R0, D\nD .blkw 1\n.end\n");
-    let mut run = 0u64;
+    let mut run = a.get_u64("run0", 0);
     for line in hist.lines() {
         if line.trim().is_empty() { continue; }
         let h: Vec<usize> = serde_json::from_str(line).expect("history");
